@@ -25,6 +25,8 @@ TARGETS = [("linux/amd64", "amd64"), ("linux/arm64", "arm64"), ("linux/386", "38
 GC_STYLE = {"amd64", "arm64", "386", "arm"}          # base sizes are types.SizesFor("gc", arch) unless build.go overrides
 SCALARS = ["b", "i8", "i16", "i32", "i64", "u8", "u16", "u32", "u64", "i", "u", "up", "f32", "f64", "c64", "c128", "str", "usp"]
 LEAVES = set(SCALARS) | {"F", "F1", "E", "I"}
+UNARY = ("P", "S", "C", "N", "B", "L", "NC")
+NAMEDISH = ("N", "L", "NC")          # transparent for layout (a defined type, an alias, a defined type with C background)
 
 
 # ------------------------------------------------------------------------------------------------ terms
@@ -50,7 +52,7 @@ def parse(s):
         i = ident()
         if i in LEAVES:
             return (i,)
-        if i in ("P", "S", "C", "N", "B"):       # B(t): blank `_` struct field of type t
+        if i in ("P", "S", "C", "N", "B", "L", "NC"):   # B(t): blank `_` field; L(t): alias `type A = t`; NC(t): named type with `//llgo:type C`
             expect("("); e = term(); expect(")")
             return (i, e)
         if i == "A":
@@ -80,7 +82,7 @@ def show(t):
     k = t[0]
     if len(t) == 1:
         return k
-    if k in ("P", "S", "C", "N", "B"):
+    if k in UNARY:
         return "%s(%s)" % (k, show(t[1]))
     if k == "A":
         return "A(%d,%s)" % (t[1], show(t[2]))
@@ -110,6 +112,12 @@ ZEROS = ["A(0,u64)", "A(0,i64)", "A(0,f64)", "A(0,c128)", "A(0,F)", "A(0,str)", 
 LESS_ALIGNED = ["u8", "u16", "u32", "T(u8,u16)", "A(3,u8)", "f32"]
 
 
+ALIAS_SHAPES = ["T(L(F),i)", "L(T(F,i))", "T(i8,L(F),i64)", "A(3,L(F))", "T(L(T(F,i8)),i8)", "T(L(i64),i8)", "L(A(2,F))", "T(L(N(F)),i8)",
+                "T(L(F1),L(F),u8)", "N(L(T(F,u16)))", "T(L(A(0,F)),u8)", "L(i64)", "L(F)", "T(L(str),L(E),b)", "T(B(L(F)),u8)"]
+CBG_SHAPES = ["NC(T(F1,i32))", "T(NC(T(F1,i32)),i64)", "A(3,NC(T(F1,i32)))", "NC(F1)", "T(NC(F1),i32)", "NC(T(i8,i64))", "NC(T(F,F1,u8))",
+              "NC(T(u8,F1))", "P(NC(T(F1,i32)))"]
+
+
 def zero_field_shapes():
     """every zero-size type, named and blank, first / middle / last, next to less-aligned fields (incl. the shape
     struct{ lo, hi uint32; _ [0]uint64 })"""
@@ -135,6 +143,7 @@ def gen(rng, d):
         if rng.random() < 0.25:         # a zero-size field of some alignment class, at any position
             fs.insert(rng.randint(0, len(fs)), parse(rng.choice(ZEROS)))
         fs = [("B", f) if rng.random() < 0.12 else f for f in fs]     # blank `_` fields
+        fs = [("L", f) if rng.random() < 0.05 and f[0] != "B" else f for f in fs]   # alias-typed fields
         return ("T", fs)
     if k == "A":
         return ("A", rng.choice([0, 1, 2, 3, 5, 8, 17]), gen(rng, d - 1))
@@ -151,7 +160,7 @@ def layout_subterms(t, acc):
     elif t[0] == "T":
         for f in t[1]:
             layout_subterms(f[1] if f[0] == "B" else f, acc)
-    elif t[0] == "N":
+    elif t[0] in NAMEDISH:
         layout_subterms(t[1], acc)
     return acc
 
@@ -164,7 +173,7 @@ def map_term(t, f):
         return f(t)
     if k == "B":
         return ("B", map_term(t[1], f))
-    if k in ("P", "S", "C", "N"):
+    if k in ("P", "S", "C", "N", "L", "NC"):
         return f((k, map_term(t[1], f)))
     if k == "A":
         return f(("A", t[1], map_term(t[2], f)))
@@ -185,7 +194,7 @@ def is_zero(t):
         return all(is_zero(f) for f in t[1])
     if k == "A":
         return t[1] == 0 or is_zero(t[2])
-    if k in ("N", "B"):
+    if k in NAMEDISH or k == "B":
         return is_zero(t[1])
     return False
 
@@ -211,7 +220,7 @@ def nat32(t):
            "usp": (4, 4), "str": (8, 4), "F": (8, 4), "F1": (8, 4), "E": (8, 4), "I": (8, 4), "P": (4, 4), "M": (4, 4), "C": (4, 4), "S": (12, 4)}
     if k in tab:
         return tab[k]
-    if k in ("N", "B"):
+    if k in NAMEDISH or k == "B":
         return nat32(t[1])
     if k == "A":
         z, a = nat32(t[2])
@@ -228,7 +237,7 @@ def repair_nested_tail(t, top=False):
     """make the tail padding of nested structs explicit (a trailing [k]uint8 field); `top`: also of t itself (a map
     key/element is an array element of the bucket)"""
     def pad(x):
-        if x[0] in ("N", "B"):
+        if x[0] in NAMEDISH or x[0] == "B":
             return (x[0], pad(x[1]))
         if x[0] == "A":
             return ("A", x[1], pad(x[2]))
@@ -252,7 +261,30 @@ def repair_nested_tail(t, top=False):
     return pad(r) if top else r
 
 
+def contains(t, ctor):
+    found = []
+    map_term(t, lambda x: (found.append(1), x)[1] if x[0] == ctor else x)
+    return bool(found)
+
+
+def repair_alias(t):
+    """write the aliased type out"""
+    return map_term(t, lambda x: x[1] if x[0] == "L" else x)
+
+
+def repair_cbg(t):
+    """a `//llgo:type C` type holds raw C function pointers: write them as one-word pointers in an ordinary type"""
+    def f(x):
+        if x[0] == "NC":
+            return ("N", map_term(x[1], lambda y: ("usp",) if y[0] in ("F", "F1") else y))
+        return x
+    return map_term(t, f)
+
+
+ALL_TARGETS = {"amd64", "arm64", "386", "arm", "wasm"}
 REPAIRS = [   # (cause, targets it can explain, rewrite)
+    ("alias-func-extra", ALL_TARGETS, repair_alias),
+    ("c-background-func-field", ALL_TARGETS, repair_cbg),
     ("int64-align", {"arm", "wasm"}, repair_align8),
     ("descriptor-align8", {"386"}, repair_align8),
     ("zero-size-tail", GC_STYLE, repair_zero_tail),
@@ -321,6 +353,45 @@ def map_spec(d, ptr, pal):
     return bad
 
 
+def offs_list(o):
+    return [] if o in ("-", ".") else [int(x) for x in o.split(":")]
+
+
+def ptrbytes_ref(ans, ptr, t, bug=False):
+    """Independent reference for the descriptor's PtrBytes ("number of prefix bytes that can contain pointers"), built
+    bottom-up from the sizes and offsets generated code uses (answers (b) of the real code for t and its sub-terms).
+    `bug=True` reproduces the known defect (a struct adds the PtrBytes of its LAST field instead of the last field
+    that has pointers) and is used only to attribute a disagreement.  None if an answer is missing."""
+    k = t[0]
+    if k in ("str", "usp", "P", "S", "M", "C"):
+        return ptr
+    if k in ("F", "F1", "E", "I"):
+        return 2 * ptr              # {fn, ctx} / {type, data}
+    if len(t) == 1:
+        return 0
+    if k in NAMEDISH or k == "B":
+        return ptrbytes_ref(ans, ptr, t[1], bug)
+    if k == "A":
+        e = ptrbytes_ref(ans, ptr, t[2], bug)
+        if e is None:
+            return None
+        if t[1] == 0 or e == 0:
+            return 0
+        d = ans.get(show(t[2]))
+        return None if d is None else (t[1] - 1) * d["b"][0] + e
+    d = ans.get(show(t))
+    if d is None:
+        return None
+    offs = offs_list(d["b"][2])
+    pbs = [ptrbytes_ref(ans, ptr, f, bug) for f in t[1]]
+    if any(x is None for x in pbs) or len(offs) != len(pbs):
+        return None
+    last = [j for j, x in enumerate(pbs) if x]
+    if not last:
+        return 0
+    return offs[last[-1]] + (pbs[-1] if bug else pbs[last[-1]])
+
+
 def strip_ptrbytes(line):
     return re.sub(r"(c=\d+,\d+,\d+),\d+,", r"\1,", line)
 
@@ -367,6 +438,8 @@ CTYPES = {"b": "_Bool", "i8": "int8_t", "i16": "int16_t", "i32": "int32_t", "i64
 
 def is_c(t):
     k = t[0]
+    if contains(t, "NC") or contains(t, "L"):
+        return False
     if k in CTYPES or k == "P":
         return True
     if k == "A":
@@ -392,7 +465,7 @@ def c_decl(t, d):
 
 
 def under(t):
-    while t[0] == "N":
+    while t[0] in NAMEDISH:
         t = t[1]
     return t
 
@@ -430,23 +503,37 @@ GOTYPES = {"b": "bool", "i8": "int8", "i16": "int16", "i32": "int32", "i64": "in
            "E": "interface{}", "I": "interface{ M() }"}
 
 
-def go_type(t):
+def go_type(t, decls=None):
+    """Go source text of a term.  With `decls` (a dict), aliases and `//llgo:type C` types become real declarations
+    (name -> declaration text) — they have to, the defects they exercise depend on the declaration; without it they
+    are written out (documentation only)."""
     k = t[0]
+    g = lambda x: go_type(x, decls)
     if k in GOTYPES:
         return GOTYPES[k]
     if k == "P":
-        return "*" + go_type(t[1])
+        return "*" + g(t[1])
     if k == "S":
-        return "[]" + go_type(t[1])
+        return "[]" + g(t[1])
     if k == "C":
-        return "chan " + go_type(t[1])
+        return "chan " + g(t[1])
     if k == "N":
-        return go_type(t[1])      # named types are declared at top level by the caller (see e2e_program)
+        return g(t[1])            # defined types: the top-level one is declared by the caller (see e2e_program)
+    if k in ("L", "NC"):
+        if decls is None:
+            return ("/*alias*/ " if k == "L" else "/*llgo:type C*/ ") + g(t[1])
+        key = show(t)
+        if key not in decls:
+            name = ("AL%d" if k == "L" else "NC%d") % len(decls)
+            decls[key] = None     # reserve the number
+            body = g(t[1])
+            decls[key] = (name, ("type %s = %s" % (name, body)) if k == "L" else ("//llgo:type C\ntype %s %s" % (name, body)))
+        return decls[key][0]
     if k == "A":
-        return "[%d]%s" % (t[1], go_type(t[2]))
+        return "[%d]%s" % (t[1], g(t[2]))
     if k == "M":
-        return "map[%s]%s" % (go_type(t[1]), go_type(t[2]))
-    return "struct { " + "; ".join(("_ %s" % go_type(f[1])) if f[0] == "B" else ("F%d %s" % (i, go_type(f))) for i, f in enumerate(t[1])) + " }"
+        return "map[%s]%s" % (g(t[1]), g(t[2]))
+    return "struct { " + "; ".join(("_ %s" % g(f[1])) if f[0] == "B" else ("F%d %s" % (i, g(f))) for i, f in enumerate(t[1])) + " }"
 
 
 MAPSLOT_PROBES = [("e128", "int", "[16]int64"), ("e127", "int", "[127]byte"), ("e129", "int", "[129]byte"), ("e128b", "int", "[128]byte"),
@@ -464,8 +551,17 @@ def e2e_program(terms):
          "type eface struct { typ unsafe.Pointer; data unsafe.Pointer }",
          "func desc(v any) *rtype { return (*rtype)((*eface)(unsafe.Pointer(&v)).typ) }",
          "var sink unsafe.Pointer", ""]
+    decls = {}
+    tdecl = []
     for i, t in enumerate(terms):
-        L.append("type T%d %s" % (i, go_type(under(t))))
+        # a top-level alias / C-background type keeps its declaration (T_i is then defined as that type)
+        if t[0] in ("L", "NC"):
+            tdecl.append("type T%d = %s" % (i, go_type(t, decls)))
+        else:
+            tdecl.append("type T%d %s" % (i, go_type(under(t), decls)))
+    for key in decls:
+        L.append(decls[key][1])
+    L += tdecl
     L.append("")
     for i, t in enumerate(terms):
         u = under(t)
@@ -488,6 +584,7 @@ def e2e_program(terms):
             L.append("\tst := (*stype)(unsafe.Pointer(d))")
             L.append('\tprint(",n", len(st.Fields))')
             L.append("\tfor _, f := range st.Fields { print(\",\", f.Offset) }")
+        L.append('\tprint(" p=", d.PtrBytes)')
         L.append('\tprintln()')
         L.append("}")
     # maps whose key / element is exactly 127, 128, 129 bytes: insert 100 entries, read every byte back
@@ -537,6 +634,176 @@ def e2e_program(terms):
     return "\n".join(L) + "\n"
 
 
+# ---------------------------------------------------------------------------------------------- generic instances (amd64)
+# unsafe.Sizeof/Alignof/Offsetof inside a generic function cannot be folded by go/types when the layout depends on the type
+# argument: llgo evaluates them per instance (cl/instr.go offsetOfFieldChain, ssa/expr.go Sizeof/Alignof).  One program,
+# compiled by llgo AND by the reference toolchain: generic types whose layout depends on T, selector chains with written
+# intermediate fields (x.a.b), fields promoted through one and two embedded structs, and mixtures.
+GEN_DECLS = """type hdr[T any] struct { pad T; len byte; w T }
+type G[T any] struct { A int64; B T; h hdr[T] }
+type Emb[T any] struct { P T; Q int16 }
+type H[T any] struct { X byte; Emb[T]; Z T }
+type Deep[T any] struct { Y T; H[T] }
+type Mix[T any] struct { a byte; d Deep[T]; g G[T] }
+type E[T any] struct { pad T; Ext int32; Exx T }
+type GE[T any] struct { A T; E[T] }
+type Pair struct { a int8; b int64 }
+"""
+GEN_TERMS = {"hdr": "T(X,u8,X)", "G": "T(i64,X,T(X,u8,X))", "Emb": "T(X,i16)", "H": "T(u8,T(X,i16),X)", "Deep": "T(X,T(u8,T(X,i16),X))",
+             "Mix": "T(u8,T(X,T(u8,T(X,i16),X)),T(i64,X,T(X,u8,X)))", "E": "T(X,i32,X)", "GE": "T(X,T(X,i32,X))"}
+# (root type, selector, operand the offset is relative to, model path: field index + e(written)/i(inserted for promotion))
+GEN_CASES = [("G", "v.h.len", "v.h", "2e.1e"), ("G", "v.h.w", "v.h", "2e.2e"), ("G", "v.h", "*v", "2e"), ("G", "v.B", "*v", "1e"),
+             ("H", "v.Q", "*v", "1i.1e"), ("H", "v.P", "*v", "1i.0e"), ("H", "v.Emb.Q", "v.Emb", "1e.1e"), ("H", "v.Z", "*v", "2e"),
+             ("Deep", "v.Q", "*v", "1i.1i.1e"), ("Deep", "v.H.Q", "v.H", "1e.1i.1e"), ("Deep", "v.H.Emb.P", "v.H.Emb", "1e.1e.0e"),
+             ("Deep", "v.Emb.Q", "v.Emb", "1i.1e.1e"), ("Deep", "v.Z", "*v", "1i.2e"),
+             ("Mix", "v.d.Q", "v.d", "1e.1i.1i.1e"), ("Mix", "v.d.H.Z", "v.d.H", "1e.1e.2e"), ("Mix", "v.g.h.len", "v.g.h", "2e.2e.1e"),
+             ("Mix", "v.d.Emb.P", "v.d.Emb", "1e.1i.1e.0e"), ("Mix", "v.g.h", "v.g", "2e.2e"),
+             ("GE", "v.Ext", "*v", "1i.1e"), ("GE", "v.Exx", "*v", "1i.2e"), ("GE", "v.E.Ext", "v.E", "1e.1e"), ("GE", "v.E", "*v", "1e"),
+             # the variable is named like the embedded field `E`, or has that name as a prefix
+             ("GE", "E.Ext", "*E", "1i.1e"), ("GE", "Emb.Exx", "*Emb", "1i.2e"), ("GE", "E.E.Ext", "E.E", "1e.1e")]
+# go/ssa positions an implicit (promoted) selection at the START of the selector expression; isExplicitFieldAddr compares
+# the source text there with the embedded field's name, so a variable named `E`/`Emb…` makes the promotion step look written
+GEN_NAME_PREFIX_CASES = {("GE", "E.Ext"), ("GE", "Emb.Exx")}
+# (name in the output, Go type, term, comparable with the reference toolchain: no function values, no zero-size type)
+GEN_INST = [("int8", "int8", "i8", True), ("int32", "int32", "i32", True), ("int64", "int64", "i64", True), ("arr2i64", "[2]int64", "A(2,i64)", True),
+            ("string", "string", "str", True), ("complex128", "complex128", "c128", True), ("Pair", "Pair", "N(T(i8,i64))", True),
+            ("arr3u8", "[3]byte", "A(3,u8)", True), ("ptr", "*int8", "P(i8)", True), ("float32", "float32", "f32", True),
+            ("iface", "interface{}", "E", True), ("func", "func()", "F", False), ("zero", "[0]int64", "A(0,i64)", False)]
+
+
+def generic_program():
+    roots = []
+    for r, _, _, _ in GEN_CASES:
+        if r not in roots:
+            roots.append(r)
+    L = ["package main", "", 'import "unsafe"', "", GEN_DECLS, "var sink unsafe.Pointer",
+         "func dist(a, b unsafe.Pointer) uintptr { return uintptr(a) - uintptr(b) }", ""]
+
+    def addr(op):
+        return "unsafe.Pointer(%s)" % op[1:] if op.startswith("*") else "unsafe.Pointer(&%s)" % op
+    for r in roots:
+        # generic: evaluated per instance
+        L.append("func gen%s[T any](tn string) {" % r)
+        L.append("\tvar arr [2]%s[T]" % r)
+        L.append("\tv := &arr[0]")
+        L.append("\tsink = unsafe.Pointer(v)")
+        for var in sorted(set(sel.split(".")[0] for rr, sel, _, _ in GEN_CASES if rr == r) - {"v"}):
+            L.append("\t%s := v" % var)
+        for ci, (rr, sel, op, _) in enumerate(GEN_CASES):
+            if rr == r:
+                L.append('\tprintln("gen", tn, %d, unsafe.Offsetof(%s), dist(unsafe.Pointer(&%s), %s))' % (ci, sel, sel, addr(op)))
+        L.append('\tprintln("gsz", tn, "%s", unsafe.Sizeof(arr[0]), unsafe.Alignof(arr[0]), dist(unsafe.Pointer(&arr[1]), unsafe.Pointer(&arr[0])))' % r)
+        L.append("}")
+        # the same selectors on the instantiated type in ordinary code: constants folded by go/types with llgo's sizes
+        for tn, gt, _, _ in GEN_INST:
+            L.append("func con%s_%s() {" % (r, tn))
+            L.append("\tvar x %s[%s]" % (r, gt))
+            L.append("\tv := &x")
+            L.append("\tsink = unsafe.Pointer(v)")
+            for var in sorted(set(sel.split(".")[0] for rr, sel, _, _ in GEN_CASES if rr == r) - {"v"}):
+                L.append("\t%s := v" % var)
+            for ci, (rr, sel, op, _) in enumerate(GEN_CASES):
+                if rr == r:
+                    L.append('\tprintln("con", "%s", %d, unsafe.Offsetof(%s))' % (tn, ci, sel))
+            L.append('\tprintln("csz", "%s", "%s", unsafe.Sizeof(x), unsafe.Alignof(x))' % (tn, r))
+            L.append("}")
+    L.append("func main() {")
+    for tn, gt, _, _ in GEN_INST:
+        for r in roots:
+            L.append('\tgen%s[%s]("%s")' % (r, gt, tn))
+            L.append("\tcon%s_%s()" % (r, tn))
+    L.append("}")
+    return "\n".join(L) + "\n"
+
+
+def run_generic(ctx, model, MT):
+    """-> (problems [(key, what, replay)], correspondence mismatches, stats)"""
+    d = os.path.join(ctx.scratch, "e2egen")
+    e2e.write_module(d, {"main.go": generic_program()})
+    exe = os.path.join(d, "prog")
+    p = e2e.llgo_build(ctx, d, exe, opt="-O0")
+    if p.returncode != 0:
+        raise HarnessBuildError("llgo could not compile the C08 generic-instance program:\n" + (p.stdout + p.stderr)[-3000:])
+    out, err, rc = e2e.run_prog(exe, timeout=120)
+    mine = [l for l in (out + err).split("\n") if l.split(" ")[0] in ("gen", "gsz", "con", "csz")]
+    ref = None
+    pr = e2e.go_run_reference(ctx, d, os.path.join(d, "ref"))
+    if pr.returncode == 0:
+        o2, e2_, rc2 = e2e.run_prog(os.path.join(d, "ref"), timeout=120)
+        ref = set(l for l in (o2 + e2_).split("\n") if l.split(" ")[0] in ("gen", "gsz", "con", "csz"))
+    probs, mism = [], []
+    stats = {"lines": len(mine), "rc": rc, "offsetof_cases": 0, "reference_toolchain_lines_compared": 0, "bad": 0}
+    inst = {tn: (term, cmp_) for tn, _, term, cmp_ in GEN_INST}
+    # model predictions
+    req = []
+    for tn, _, term, _ in GEN_INST:
+        for ci, (r, sel, op, path) in enumerate(GEN_CASES):
+            req.append("ch %s %s %s" % (MT["amd64"], GEN_TERMS[r].replace("X", term), path))
+    pred = dict(zip([(tn, ci) for tn, _, _, _ in GEN_INST for ci in range(len(GEN_CASES))], model(req)))
+    con, gsz, csz = {}, {}, {}
+    seen = set()
+    for l in mine:
+        f = l.split()
+        if f[0] == "con":
+            con[(f[1], int(f[2]))] = f[3]
+        elif f[0] == "gsz":
+            gsz[(f[1], f[2])] = f[3:]
+        elif f[0] == "csz":
+            csz[(f[1], f[2])] = f[3:]
+    for l in mine:
+        f = l.split()
+        if f[0] != "gen":
+            continue
+        tn, ci, fold, dist_ = f[1], int(f[2]), f[3], f[4]
+        seen.add((tn, ci))
+        r, sel, op, path = GEN_CASES[ci]
+        stats["offsetof_cases"] += 1
+        what = None
+        if fold != dist_:
+            what = "unsafe.Offsetof(%s) in the instance %s[%s] is %s, but &%s is %s bytes after %s in generated code" % (sel, r, tn, fold, sel, dist_, op[1:] if op.startswith("*") else "&" + op)
+        elif con.get((tn, ci)) not in (None, fold) and inst[tn][1]:
+            what = "unsafe.Offsetof(%s): %s in the generic instance %s[%s], %s folded in ordinary code" % (sel, fold, r, tn, con[(tn, ci)])
+        if what:
+            stats["bad"] += 1
+            key = ("layout:amd64:generic-offsetof:embedded-name-prefix" if (r, sel) in GEN_NAME_PREFIX_CASES
+                   else "layout:amd64:generic-offsetof:%s.%s[%s]" % (r, sel.split(".", 1)[1], tn))
+            probs.append((key, what, {"program": "checks/c08.py generic_program()", "type": r + "[" + tn + "]", "selector": sel, "line": l,
+                                      "meaning": "gen <T> <case> <Offsetof evaluated in the instance> <address distance in generated code>"}))
+        if pred.get((tn, ci)) != "ch=" + fold:
+            mism.append(("generic Offsetof %s[%s] %s" % (r, tn, sel), l, pred.get((tn, ci))))
+    missing = [(tn, ci) for tn, _, _, _ in GEN_INST for ci in range(len(GEN_CASES)) if (tn, ci) not in seen]
+    if missing:
+        probs.append(("layout:amd64:generic-offsetof:program-died", "the generic-instance program produced no line for %d cases" % len(missing),
+                      {"first": missing[:5], "rc": rc, "tail": (out + err)[-800:]}))
+    for (tn, r), (sz, al, stride) in gsz.items():
+        if sz != stride:
+            stats["bad"] += 1
+            probs.append(("layout:amd64:generic-sizeof:%s[%s]" % (r, tn), "unsafe.Sizeof in the instance is %s, the array stride in generated code %s" % (sz, stride),
+                          {"type": r + "[" + tn + "]", "line": "gsz %s %s %s %s %s" % (tn, r, sz, al, stride)}))
+        c = csz.get((tn, r))
+        if c is not None and [sz, al] != c:
+            zero = inst[tn][0].startswith("A(0")
+            stats["bad"] += 1
+            key = "layout:amd64:zero-size-tail" if zero else "layout:amd64:generic-sizeof-vs-constant:%s[%s]" % (r, tn)
+            probs.append((key, "unsafe.Sizeof/Alignof: %s,%s in the generic instance, %s,%s folded in ordinary code" % (sz, al, c[0], c[1]),
+                          {"type": r + "[" + tn + "]", "generic": [sz, al], "constant": c}))
+    if ref is not None:
+        for l in mine:
+            f = l.split()
+            if inst[f[1]][1]:
+                stats["reference_toolchain_lines_compared"] += 1
+                if l not in ref:
+                    stats["bad"] += 1
+                    r_ = GEN_CASES[int(f[2])][0] if f[0] in ("gen", "con") else f[2]
+                    sel_ = GEN_CASES[int(f[2])][1] if f[0] in ("gen", "con") else "Sizeof/Alignof"
+                    key = ("layout:amd64:generic-offsetof:embedded-name-prefix" if (r_, sel_) in GEN_NAME_PREFIX_CASES
+                           else "layout:amd64:generic-vs-gc:%s[%s].%s:%s" % (r_, f[1], sel_, f[0]))
+                    probs.append((key, "differs from the reference toolchain (gc) on a type without function values", {"line": l, "type": r_ + "[" + f[1] + "]", "selector": sel_}))
+    else:
+        stats["reference_toolchain"] = "go build failed: " + (pr.stdout + pr.stderr)[-300:]
+    return probs, mism, stats
+
+
 def run_e2e(ctx, terms, model_lines):
     """compile + run the batch; returns list of problems [(term, what, detail)]"""
     d = os.path.join(ctx.scratch, "e2eprog")
@@ -549,9 +816,9 @@ def run_e2e(ctx, terms, model_lines):
     lines = [l for l in (out + err).split("\n") if re.match(r"^\d+ a=", l)]
     res = {}
     for l in lines:
-        m = re.match(r"^(\d+) a=(\S+) b=(\S+) c=(\S+)$", l)
+        m = re.match(r"^(\d+) a=(\S+) b=(\S+) c=(\S+) p=(\d+)$", l)
         if m:
-            res[int(m.group(1))] = (m.group(2), m.group(3), m.group(4))
+            res[int(m.group(1))] = (m.group(2), m.group(3), m.group(4), int(m.group(5)))
     probes = [tuple(l.split()) for l in (out + err).split("\n") if l.startswith("clearfunc ") or l.startswith("mapfunc ") or l.startswith("mapslot ")]
     return res, rc, (out + err)[-1500:], probes
 
@@ -646,15 +913,25 @@ def run(ctx, args):
 
     # which descriptor alignment table does the working tree have?  (fixes/C08-1.diff makes the 8-byte kinds follow the
     # data layout; the model has both tables: `q` = hand-written constants, `qf` = repaired table)
-    pr = real(["q linux/386 i64", "q linux/amd64 F"])
-    probe, probe2 = decode(pr[0], True), decode(pr[1], True)
+    pr = real(["q linux/386 i64", "q linux/amd64 F", "q linux/amd64 T(P(i),i)", "q linux/amd64 T(L(F),i)"])
+    probe, probe2, probe3, probe4 = [decode(x, True) for x in pr]
+    ptrbytes_fixed = probe3 is not None and probe3["ptrbytes"] == "8"
+    alias_fixed = probe4 is not None and probe4["a"][0] == probe4["b"][0]
     fixed_table = probe is not None and probe["c"][1] == 4
     func_words = 2 if (probe2 is not None and probe2["e"][0] == 16) else 1
     QM, MBM = "q", "mb"
-    variant += ["set align-table " + ("fixed" if fixed_table else "orig"), "set func-words %d" % func_words]
-    ctx.log("descriptor code of the working tree: alignment table %s; a function type is recorded with %d word(s)" %
-            ("repaired (fixes/C08-1)" if fixed_table else "hand-written constants (8 for 8-byte kinds)", func_words))
-    ctx.coverage["descriptor_code_variant"] = {"align_table": "fixed" if fixed_table else "original", "func_words": func_words}
+    variant += ["set align-table " + ("fixed" if fixed_table else "orig"), "set func-words %d" % func_words,
+                "set ptrbytes " + ("fixed" if ptrbytes_fixed else "orig")]
+    ctx.log("code variant of the working tree: alignment table %s; a function type is recorded with %d word(s); PtrBytes of a struct %s; extraSize %s aliases" %
+            ("repaired (fixes/C08-1)" if fixed_table else "hand-written constants (8 for 8-byte kinds)", func_words,
+             "keeps the last pointerful field (fixes/C08-4)" if ptrbytes_fixed else "adds the bytes of the LAST field",
+             "looks through (fixes/C08-3)" if alias_fixed else "does not look through"))
+    ctx.coverage["descriptor_code_variant"] = {"align_table": "fixed" if fixed_table else "original", "func_words": func_words,
+                                               "ptrbytes": "fixed" if ptrbytes_fixed else "original", "alias_in_extraSize": "fixed" if alias_fixed else "original"}
+
+    def mshow(t):
+        """how a term is put to the model: with fixes/C08-3 an alias is fully transparent (= the aliased type written out)"""
+        return show(repair_alias(t) if alias_fixed else t)
 
     # ---- 0. the target records of the model against the real data layouts / base sizes
     dls = real(["dl " + rt for rt, _ in TARGETS])
@@ -701,16 +978,17 @@ def run(ctx, args):
     for s_ in zshapes:
         for sub in layout_subterms(parse(s_), []):
             add(sub)
+    for s_ in ALIAS_SHAPES + CBG_SHAPES:
+        for sub in layout_subterms(parse(s_), []):
+            add(sub)
     n_terms += len(terms)       # the systematic shapes come on top of the random terms
     depth_hist = {}
     while len(terms) < n_terms:
         d = rng.choice([1, 2, 2, 3, 3, 4, 5])
         depth_hist[d] = depth_hist.get(d, 0) + 1
         t = gen(rng, d)
-        add(t)
-        if rng.random() < 0.3:
-            for sub in layout_subterms(t, []):
-                add(sub)
+        for sub in layout_subterms(t, []):      # sub-terms too: the PtrBytes reference is built bottom-up from their answers
+            add(sub)
     maps = []
     # systematic: every boundary type as key with small and boundary elements, every boundary type as element
     for kb_ in BOUNDARY:
@@ -731,17 +1009,20 @@ def run(ctx, args):
     for t in terms:
         s = show(t)
         for rt, mt in TARGETS:
-            lr.append("q %s %s" % (rt, s)); lm.append("%s %s %s" % (QM, MT[mt], s)); meta.append((mt, t, None))
+            lr.append("q %s %s" % (rt, s)); meta.append((mt, t, None))
+            # `//llgo:type C` types are not in the model (judged by the specification only)
+            lm.append("%s %s %s" % (QM, MT[mt], "i8" if contains(t, "NC") else mshow(t)))
     for k, v in maps:
         for rt, mt in TARGETS:
-            lr.append("mb %s %s %s" % (rt, show(k), show(v))); lm.append("%s %s %s %s" % (MBM, MT[mt], show(k), show(v))); meta.append((mt, k, v))
+            lr.append("mb %s %s %s" % (rt, show(k), show(v))); lm.append("%s %s %s %s" % (MBM, MT[mt], mshow(k), mshow(v))); meta.append((mt, k, v))
     ctx.log("asking real code and model: %d requests" % len(lr))
     ro = real(lr)
     mo = model(lm)
     ctx.log("answers in")
 
-    # ---- 2. correspondence real vs model (PtrBytes is not modelled)
-    mism = [(lr[i], ro[i], mo[i]) for i in range(len(lr)) if strip_ptrbytes(ro[i]) != mo[i]]
+    # ---- 2. correspondence real vs model (whole answer lines, PtrBytes included)
+    no_model = [meta[i][2] is None and contains(meta[i][1], "NC") for i in range(len(lr))]
+    mism = [(lr[i], ro[i], mo[i]) for i in range(len(lr)) if not no_model[i] and ro[i] != mo[i]]
 
     def judge(d, mt):
         """the specification on one decoded answer of the real code"""
@@ -814,24 +1095,45 @@ def run(ctx, args):
         d0 = decode(ro[i], True)
         return d0["a"][1] == d0["b"][1] == d0["c"][1] == d0["cfa"] == d0["e"][1]
 
+    # causes that the code variant of this tree cannot have are not offered as explanations
+    repairs = [r_ for r_ in REPAIRS if not (r_[0] == "descriptor-align8" and fixed_table) and not (r_[0] == "alias-func-extra" and alias_fixed)]
+
+    def judge_mod_func(d2, mt_, t2):
+        """agreement, or agreement up to the known one-word descriptor of an unnamed function type when that is what the
+        (repaired) term is"""
+        if d2 is None:
+            return False
+        if judge(d2, mt_):
+            return True
+        return (func_words == 1 and t2[0] != "MB" and repair_alias(t2)[0] in ("F", "F1") and d2["a"] == d2["b"] == d2["c"]
+                and d2["cfa"] == d2["c"][1] and d2["e"][1] == d2["b"][1] and ctx.match_known("layout:%s:func-descriptor-size" % mt_) is not None)
+
     unexplained = []
     # stage 1: does a single repair explain the disagreement?  (keeps the attribution specific)
     singles = []
     for p in pending:
-        for cause, tgts, rw in REPAIRS:
+        for cause, tgts, rw in repairs:
             if p["mt"] in tgts:
                 t2 = rewrite(rw, p["t"])
                 if shown(t2) != shown(p["t"]):
-                    singles.append((p, cause, t2))
+                    singles.append((p, [cause], t2))
+    # … or two of them
+    for p in pending:
+        app = [(cause, rw) for cause, tgts, rw in repairs if p["mt"] in tgts and shown(rewrite(rw, p["t"])) != shown(p["t"])]
+        for x in range(len(app)):
+            for y in range(x + 1, len(app)):
+                t2 = rewrite(app[y][1], rewrite(app[x][1], p["t"]))
+                singles.append((p, [app[x][0], app[y][0]], t2))
     if singles:
-        out = real([req(p["mt"], t2) for p, cause, t2 in singles])
-        for (p, cause, t2), line in zip(singles, out):
+        singles.sort(key=lambda x: len(x[1]))
+        out = real([req(p["mt"], t2) for p, causes, t2 in singles])
+        for (p, causes, t2), line in zip(singles, out):       # singles come first for every p: the smallest explanation wins
             d2 = decode(line, True)
-            if not p["done"] and d2 is not None and judge(d2, p["mt"]) and (cause in ALIGN_CAUSES or aligns_agree(p["i"])):
+            if not p["done"] and judge_mod_func(d2, p["mt"], t2) and (set(causes) & ALIGN_CAUSES or aligns_agree(p["i"])):
                 p["done"] = True
-                p["causes"] = [cause]
+                p["causes"] = causes
     # stage 2: several causes at once — apply the repairs cumulatively
-    for cause, tgts, rw in REPAIRS:
+    for cause, tgts, rw in repairs:
         batch = []
         for p in pending:
             if p["mt"] in tgts and not p["done"]:
@@ -845,7 +1147,7 @@ def run(ctx, args):
             d2 = decode(line, True)
             p["t"] = t2
             p["causes"].append(cause)
-            if d2 is not None and judge(d2, p["mt"]):
+            if judge_mod_func(d2, p["mt"], t2):
                 p["done"] = True
     for p in pending:
         i, mt = p["i"], p["mt"]
@@ -882,7 +1184,41 @@ def run(ctx, args):
                         "meaning": "a=<compile-time size>,<align>,<offsets> b=<LLVM …> c=<descriptor size>,<Align>,<FieldAlign>,<PtrBytes>,<offsets> e=<referenced descriptor size>,<align>",
                         "repairs_tried": tried})
 
-    ctx.log("cause attribution done: %s, unexplained %d" % (spec_fail_keys, len(unexplained)))
+    # ---- 3c. PtrBytes of the descriptors, judged against a reference built bottom-up from the real sizes and offsets
+    ans = {mt: {} for _, mt in TARGETS}
+    for i, line in enumerate(ro):
+        if meta[i][2] is None:
+            d = decode(line, True)
+            if d is not None:
+                ans[meta[i][0]][show(meta[i][1])] = d
+    pb_stats = {"judged": 0, "wrong": 0}
+    pb_bad = []
+    for i, line in enumerate(ro):
+        mt, t = meta[i][0], meta[i][1]
+        if meta[i][2] is not None or contains(t, "NC"):
+            continue
+        d = ans[mt].get(show(t))
+        if d is None or not agrees(d) or d["ptrbytes"] is None:
+            continue
+        ref = ptrbytes_ref(ans[mt], PTR[mt][0], t)
+        if ref is None:
+            continue
+        pb_stats["judged"] += 1
+        got = int(d["ptrbytes"])
+        if got != ref:
+            pb_stats["wrong"] += 1
+            if got == ptrbytes_ref(ans[mt], PTR[mt][0], t, bug=True):
+                key = "layout:%s:ptrbytes-last-field" % mt
+                spec_fail_keys[key] = spec_fail_keys.get(key, 0) + 1
+                ctx.report(key, "PtrBytes of a struct descriptor stops before its last pointer", {"line": lr[i], "real": line, "PtrBytes": got, "want": ref})
+            else:
+                pb_bad.append((lr[i], line, got, ref))
+    for (l_, r_, got, ref) in sorted(pb_bad, key=lambda u: (len(u[0]), u[0]))[:12]:
+        f = l_.split()
+        ctx.report("layout:%s:ptrbytes:%s" % ([m for rt_, m in TARGETS if rt_ == f[1]][0], f[2]),
+                   "PtrBytes of the descriptor is not the prefix of the value that can hold pointers",
+                   {"type": go_type(parse(f[2])), "line": l_, "real": r_, "PtrBytes": got, "want": ref})
+    ctx.log("cause attribution done: %s, unexplained %d; PtrBytes %s" % (spec_fail_keys, len(unexplained), pb_stats))
     # ---- 4. C-compatible types on amd64: gcc is the reference for the real numbers and for the model's cLayout
     cterms = [t for t in terms if is_c(t)]
     while len(cterms) < n_c:
@@ -927,8 +1263,10 @@ def run(ctx, args):
                 sts.append(t)
         rng.shuffle(sts)
         pick = [parse(s) for s in ["T(i8,i64)", "T(i8,F,i64)", "T(i64,T())", "T(b,F,b)", "T(i32,T(),T())", "T(A(3,F),i8)", "T(T(i32,i8),i8)",
-                                   "T(u32,u32,A(0,u64))", "T(A(0,u64),u32)", "T(u8,T(B(A(0,u64)),u8),u8)", "T(u16,A(0,c128),u16)"]] + sts[:n_e2e]
-        mlines = model(["%s %s %s" % (QM, MT["amd64"], show(t)) for t in pick])
+                                   "T(u32,u32,A(0,u64))", "T(A(0,u64),u32)", "T(u8,T(B(A(0,u64)),u8),u8)", "T(u16,A(0,c128),u16)",
+                                   "T(L(F),i)", "T(i8,L(F),i64)", "T(L(i64),i8)", "NC(T(F1,i32))", "T(NC(T(F1,i32)),i64)", "T(NC(F1),i32)",
+                                   "T(P(i),i)", "T(str,P(i),A(4,i))"]] + sts[:n_e2e]
+        mlines = model(["%s %s %s" % (QM, MT["amd64"], "i8" if contains(t, "NC") else mshow(t)) for t in pick])
         llgo_thread.join()
         if "err" in llgo_box:
             raise llgo_box["err"]
@@ -968,7 +1306,7 @@ def run(ctx, args):
                 ctx.report("layout:amd64:e2e-crash:" + show(t), "the end-to-end layout program produced no line for this struct",
                            {"term": show(t), "rc": rc, "tail": tail})
                 continue
-            a, b, c = res[i]
+            a, b, c, pbytes = res[i]
             an, bn = a.split(","), b.split(",")
             cn = c.split(",")
             n = len(under(t)[1])
@@ -976,7 +1314,23 @@ def run(ctx, args):
             code = (bn[0], bn[1:])                     # element stride of [2]T, field address differences
             descr = (cn[0], cn[5:]) if len(cn) > 4 else (cn[0], [])
             ok = fold == code == descr and an[1] == cn[1] == cn[2]
+            if contains(t, "NC"):
+                if not ok:
+                    e2e_stats["bad"] += 1
+                    ctx.report("layout:amd64:c-background-func-field", "compiled program: a `//llgo:type C` struct with a function-pointer field: folded constants, generated addresses and descriptor differ",
+                               {"term": show(t), "go": go_type(t), "line": "a=%s b=%s c=%s" % (a, b, c)})
+                continue
             md = decode(mlines[i], False)
+            if str(pbytes) != md["ptrbytes"]:
+                mism.append(("e2e amd64 PtrBytes " + show(t), "p=%d" % pbytes, mlines[i]))
+            if ok:
+                want_pb = ptrbytes_ref(ans["amd64"], PTR["amd64"][0], t)
+                if want_pb is not None and want_pb != pbytes:
+                    e2e_stats["bad"] += 1
+                    known_shape = pbytes == ptrbytes_ref(ans["amd64"], PTR["amd64"][0], t, bug=True)
+                    ctx.report("layout:amd64:ptrbytes-last-field" if known_shape else "layout:amd64:ptrbytes:e2e:" + show(t),
+                               "compiled program: PtrBytes of the emitted descriptor stops before the last pointer of the value",
+                               {"term": show(t), "go": go_type(t), "PtrBytes": pbytes, "want": want_pb})
             mfold = (str(md["a"][0]), md["a"][2].split(":") if md["a"][2] not in ("-", ".") else [])
             mcode = (str(md["b"][0]), md["b"][2].split(":") if md["b"][2] not in ("-", ".") else [])
             mdesc = (str(md["c"][0]), md["c"][2].split(":") if md["c"][2] not in ("-", ".") else [])
@@ -985,12 +1339,30 @@ def run(ctx, args):
             if not ok:
                 e2e_stats["bad"] += 1
                 t2 = repair_zero_tail(t)
-                if t2 != t:
+                if repair_alias(t) != t and not alias_fixed:
+                    ctx.report("layout:amd64:alias-func-extra", "compiled program: folded constants, generated addresses and descriptor differ",
+                               {"term": show(t), "go": go_type(t), "line": "a=%s b=%s c=%s" % (a, b, c)})
+                elif t2 != t:
                     ctx.report("layout:amd64:zero-size-tail", "compiled program: folded constants, generated addresses and descriptor differ",
                                {"term": show(t), "go": go_type(t), "line": "a=%s b=%s c=%s" % (a, b, c)})
                 else:
                     ctx.report("layout:amd64:e2e:" + show(t), "compiled program: folded constants, generated addresses and descriptor differ",
                                {"term": show(t), "go": go_type(t), "line": "a=%s b=%s c=%s" % (a, b, c)})
+        # ---- 5b. per-instance unsafe.Sizeof/Alignof/Offsetof in generic functions (llgo vs generated addresses vs gc vs model)
+        gprobs, gmism, gstats = run_generic(ctx, model, MT)
+        e2e_stats["generic_instances"] = gstats
+        mism += gmism
+        n_g = 0
+        for key, what, rep in gprobs:
+            if ctx.match_known(key) is None:
+                n_g += 1
+                if n_g > 12:
+                    continue
+            ctx.report(key, what, rep)
+        gk = {}
+        for key, _, _ in gprobs:
+            gk[key] = gk.get(key, 0) + 1
+        ctx.log("generic-instance program: %s problems by key: %s" % (gstats, gk))
     except HarnessBuildError as e:
         e2e_err = str(e)
         ctx.log("end-to-end part failed:", e2e_err[-1500:])
